@@ -151,6 +151,11 @@ def run_scenario(scn):
                     store = mem_store["obj"] or sr.fault_store("memory", None, yield_rnd=yr, log=[], latency=scn.get("store_latency"))
                     mem_store["obj"] = store
                 proc = sr.Proc(spec, store, idle_timeout=scn["idle_timeout"], stack=scn.get("stack", "inproc"), lifecycle_db=os.path.join(d, "lifecycle.db"))
+                procs = [proc]
+                if scn.get("replicas", 1) > 1 and scn.get("stack") == "dbos_sub":
+                    # second replica: its own decorator chain / server / workflow instance over the SAME store, lifecycle table and engine
+                    proc2 = sr.Proc(spec, store, idle_timeout=scn["idle_timeout"], stack="dbos_sub", lifecycle_db=os.path.join(d, "lifecycle.db"), engine=proc.engine)
+                    procs.append(proc2)
                 starter = asyncio.ensure_future(proc.start())
                 senders = []
 
@@ -158,10 +163,13 @@ def run_scenario(scn):
                     delay = s["at"] - vclock.vnow()
                     if delay > 0:
                         await asyncio.sleep(delay)
-                    ok = await proc.send("h1", s.get("type", "Answer"), s.get("pay", {}), cs.tr.rec, v=s.get("v"), step=s.get("step"))
+                    via = procs[s.get("via", 0) % len(procs)]
+                    ok = await via.send("h1", s.get("type", "Answer"), s.get("pay", {}), cs.tr.rec, v=s.get("v"), step=s.get("step"))
                     obs["sends"].append({"at": s["at"], "t_done": vclock.vnow(), "ok": ok, "pay": s.get("pay"), "phase": pi})
 
                 await starter
+                for extra in procs[1:]:
+                    await extra.start()
                 if pi == 0:
                     await proc.start_run("h1", cs.tr.rec)
                 for s in scn.get("sends", []):
